@@ -492,7 +492,7 @@ def check_legend(rec, label, fig, worlds, asym):
             continue
         # the lines about the MultiFit as a whole (repeated under the block of every member)
         rec.truth(tag + ":global_present", len(b["global"]) >= 1, "goodness-of-fit / cost line of the MultiFit", "none", (w.ftype, "legend", "global_present"))
-        mndf = w.multi_num.ndf
+        mndf = int(w.multi_num.ndf)
         for g in b["global"]:
             if g["kind"] == "per_ndf":
                 ok, exp = agree(g["value"], lambda f: f.goodness_of_fit, msrcs)
